@@ -671,5 +671,11 @@ PROPS["C08"]["rules"] = PROPS["C08"]["rules"] + [rules_bounds.rule_unbounded_nam
 PROPS["C03"]["rules"] = PROPS["C03"]["rules"] + [rules_sd.rule_api_name_set, rules_sd.rule_fill_length_in_bytes]
 PROPS["C03"]["explanation"] += " (APINAME) every public SD routine that can reach NCcoordck sets cdf_routine_name first. (FILLBYTES) NC_arrayfill is handed a byte length."
 
+PROPS["C01"]["rules"] = PROPS["C01"]["rules"] + [rules_limits.rule_origin_applied_first, rules_limits.rule_clamp_to_tested_bound]
+PROPS["C01"]["explanation"] += " (ORIGINFIRST) Hseek takes no decision about the offset before both origin adjustments. (CLAMPSAME) a variable clamped inside an `if (x > a) x = b` is set to the bound it was tested against."
+
+PROPS["C06"]["rules"] = PROPS["C06"]["rules"] + [rules_conv.rule_high_byte_by_shift]
+PROPS["C06"]["explanation"] += " (BYTEDIV) no byte of a file image is a signed quotient by 256/65536/2^24 (shifts are used)."
+
 NOT_APPLICABLE = {}
 
